@@ -31,7 +31,7 @@ theorem characterEscapeB_SE {nf : Bool} {i r : List Nat} {v : Nat} (h : RxSpecB.
     exact (SE.cons _ _).trans ((SN.cons (hexDigit_neutral ha) _).trans (SN.cons (hexDigit_neutral hb) _))
   | unicode m r v h => exact (SE.cons _ _).trans (hex4_SN h)
   | legacyOctal _ _ _ h => exact legacyOctal_SE h
-  | identity x r _ _ _ => exact SE.cons _ _
+  | identity x r _ _ _ _ => exact SE.cons _ _
 
 theorem characterClassEscapeB_SE {i r : List Nat} (h : RxSpecB.CharacterClassEscape i r) : SE i r := by
   obtain ⟨x, rfl, _⟩ := h
@@ -68,7 +68,7 @@ theorem atomEscapeB_SE {nf : Bool} {N : Nat} {i r : List Nat} {a : Attr} (h : Rx
   cases h with
   | decimal _ _ v h _ => exact ⟨decimalEscape_SE h, rfl⟩
   | characterClass _ _ h => exact ⟨characterClassEscapeB_SE h, rfl⟩
-  | character _ _ v h => exact ⟨characterEscapeB_SE h, rfl⟩
+  | character _ _ v h _ _ => exact ⟨characterEscapeB_SE h, rfl⟩
   | named m r n _ h => exact ⟨(SE.cons _ _).trans (groupNameB_SN h), rfl⟩
 
 theorem classEscapeB_SE {nf : Bool} {i r : List Nat} {v : Option Nat} (h : RxSpecB.ClassEscape nf i r v) : SE i r := by
@@ -81,14 +81,14 @@ theorem classEscapeB_SE {nf : Bool} {i r : List Nat} {v : Option Nat} (h : RxSpe
     · have : l = 0x5f := hl
       unfold NeutralC; omega
   | characterClass _ _ h => exact characterClassEscapeB_SE h
-  | character _ _ v h => exact characterEscapeB_SE h
+  | character _ _ v h _ _ => exact characterEscapeB_SE h
 
 theorem classAtomNoDashB_SC {nf : Bool} {i r : List Nat} {v : Option Nat} (h : RxSpecB.ClassAtomNoDash nf i r v) :
     SC i r := by
   cases h with
   | char x r _ h1 h2 _ => exact fun k => scan_inClass h1 h2 r k
   | escape m r v h => exact fun k => (SN.backslash (classEscapeB_SE h)) true k
-  | backslashC r =>
+  | backslashC r _ =>
     intro k
     have e1 : scan (c '\\' :: c 'c' :: r) true false k = scan r true false k :=
       (SN.backslash (SE.cons _ _)) true k
@@ -140,8 +140,8 @@ theorem derives_headB {nf : Bool} {qok : Nat → Nat → Prop} {N : Nat} {sym : 
   | altSnoc i m r a₁ a₂ _ _ ih1 ih2 => exact fun _ => ih1 (.inl (ih2 (.inr rfl)))
   | termQAssertionQuantified i m r a _ _ ih => exact fun _ => ih (.inr rfl)
   | termAssertion i r a _ ih => exact fun _ => ih (.inr rfl)
-  | termAtomQuantified i m r a _ _ ih => exact fun _ => ih (.inr rfl)
-  | termAtom i r a _ ih => exact fun _ => ih (.inr rfl)
+  | termAtomQuantified i m r a _ _ _ ih => exact fun _ => ih (.inr rfl)
+  | termAtom i r a _ _ ih => exact fun _ => ih (.inr rfl)
   | caret r => exact fun _ => head_cons_ne (by decide) _
   | dollar r => exact fun _ => head_cons_ne (by decide) _
   | wordBoundary r => exact fun _ => head_cons_ne (by decide) _
@@ -153,7 +153,7 @@ theorem derives_headB {nf : Bool} {qok : Nat → Nat → Prop} {N : Nat} {sym : 
   | negativeLookbehind i m r a hl _ _ => exact fun _ => by rw [lit_head hl]; decide
   | dot r => exact fun _ => head_cons_ne (by decide) _
   | atomEscape m r a _ => exact fun _ => head_cons_ne (by decide) _
-  | backslashC r => exact fun _ => head_cons_ne (by decide) _
+  | backslashC r _ => exact fun _ => head_cons_ne (by decide) _
   | characterClass i r hc =>
     intro _
     cases hc <;> exact head_cons_ne (by decide) _
@@ -204,10 +204,10 @@ theorem derives_scanB {nf : Bool} {qok : Nat → Nat → Prop} {N : Nat} {sym : 
     intro k
     rw [ih k, quantifier_SN hq false]
   | termAssertion i r a _ ih => exact ih
-  | termAtomQuantified i m r a _ hq ih =>
+  | termAtomQuantified i m r a _ hq _ ih =>
     intro k
     rw [ih k, quantifier_SN hq false]
-  | termAtom i r a _ ih => exact ih
+  | termAtom i r a _ _ ih => exact ih
   | quantifiable i r a _ ih => exact ih
   | caret r => exact fun k => scan_neutral (neutral_of_ne (by decide)) r false k
   | dollar r => exact fun k => scan_neutral (neutral_of_ne (by decide)) r false k
@@ -246,7 +246,7 @@ theorem derives_scanB {nf : Bool} {qok : Nat → Nat → Prop} {N : Nat} {sym : 
     rcases extendedPatternCharacter_neutral hx with hn | hn
     · exact scan_neutral hn r false k
     · subst hn; exact scan_rbracket_out r k
-  | backslashC r =>
+  | backslashC r _ =>
     intro k
     have e1 : scan (c '\\' :: c 'c' :: r) false false k = scan r false false k :=
       (SN.backslash (SE.cons _ _)) false k
